@@ -153,6 +153,7 @@ struct Interp {
     std::vector<bool> modified;
     std::set<ustr> removed_names;   // normalised names/codes removed so far (for the "re-created after removal" rule)
     long parse_counter = 0;
+    bool strict = false;         // witness replays of known findings: do not skip the excluded classes
 
     std::string where(const Op &op) { return "op#" + std::to_string(opno) + " " + OP_NAME[op.code]; }
     bool expect(const Op &op, int rc, std::initializer_list<int> allowed, const std::string &detail = "") {
@@ -250,7 +251,13 @@ bool Interp::op_add_packet(const Op &op, size_t ci, cif_container_tp *h, Contain
             }
         }
     }
-    if (mode == 6) { cif_loop_free(lh); count_excluded("F-PARTIAL"); return true; }
+    bool partial = false;
+    if (mode == 6) {
+        // known finding F-PARTIAL: items a packet omits are documented to get the explicit unknown value but nothing is stored for them.
+        // Not generated (counted) unless the case is marked strict (the finding's witness).
+        if (!strict || ml.names.size() < 2) { cif_loop_free(lh); count_excluded("F-PARTIAL"); return true; }
+        pnames.resize(1); pvals.resize(1); partial = true;
+    }
     cif_packet_tp *pkt = nullptr;
     std::vector<UChar *> np; for (auto &n : pnames) np.push_back((UChar *) n.c_str()); np.push_back(nullptr);
     rc = cif_packet_create(&pkt, np.data());
@@ -273,6 +280,7 @@ bool Interp::op_add_packet(const Op &op, size_t ci, cif_container_tp *h, Contain
         return true;
     }
     if (!expect(op, rc, {CIF_OK})) return false;
+    if (partial) while (pvals.size() < ml.names.size()) pvals.push_back(Value::unk());
     ml.rows.push_back(pvals); touched(ci);
     return true;
 }
@@ -742,6 +750,7 @@ static std::string run_case(const CaseFile &c) {
         Interp in;
         for (int i = 0; i < ncifs; i++) { cif_tp *cf = nullptr; if (cif_create(&cf) != CIF_OK) return "cif_create failed"; in.sut.cifs.push_back(cf); in.model.push_back(Doc()); }
         in.modified.assign(ncifs, false);
+        in.strict = c.geti("strict") != 0;
         for (auto &op : ops) {
             if (op.code < 0 || op.code >= N_OPS) continue;
             in.opno++;
@@ -800,6 +809,11 @@ int main(int argc, char **argv) {
         });
     };
     e.replay = run_case;
-    e.classify = [](const CaseFile &) { return std::string(); };
+    e.classify = [](const CaseFile &c) {
+        // F-PARTIAL: only a strict case can contain a partial packet (mode 6 add_packet is skipped otherwise)
+        if (!c.geti("strict")) return std::string();
+        for (auto &op : parse_ops(c.get("ops"))) if (op.code == OP_ADD_PACKET && arg(op, 3) % 8 == 6) return std::string("F-PARTIAL");
+        return std::string();
+    };
     return engine_main(argc, argv, e);
 }
